@@ -4,6 +4,7 @@ import (
 	"fmt"
 	"net/http"
 	"sort"
+	"strings"
 	"time"
 
 	"verifharness/mc"
@@ -98,7 +99,8 @@ func runC01(x *mc.X) {
 	r.swr = mc.Pick(x, "resp.swr", []string{"", "5"})
 	reqDir := mc.Pick(x, "req.directive", c01ReqDir)
 	threeStep := false
-	if x.Tier() == "thorough" {
+	if x.Tier() == "thorough" || (r.age == "" && r.date == "now" && r.status == 200 && r.delay == 0 && r.swr == "") {
+		// quick: the validation round in between is explored on the sub-alphabet without Age / Date skew / delay
 		threeStep = x.Choose("three-step", 2) == 1
 	}
 
@@ -140,9 +142,13 @@ func runC01(x *mc.X) {
 
 	if threeStep {
 		// a validation round in between: origin answers 304 (freshening) — the ghost is updated per §4.3.4
-		kind := mc.Pick(x, "mid.answer", []string{"304", "304+max-age=20", "200"})
+		kind := mc.Pick(x, "mid.answer", []string{"304", "304+max-age=20", "200", "200+expires=5", "200+heuristic=5"})
 		var mid RS
 		switch kind {
+		case "200+expires=5": // a replacement whose lifetime comes from Expires - Date
+			mid = RS{Status: 200, H: H("Expires", httpDate(time.Now().Add(secs(5))), "ETag", `"v2"`)}
+		case "200+heuristic=5": // a replacement whose lifetime is heuristic (10% of 50 s)
+			mid = RS{Status: 200, H: H("Last-Modified", httpDate(time.Now().Add(-secs(50))), "ETag", `"v2"`)}
 		case "304":
 			mid = RS{Status: 304, NoTok: true, H: H("ETag", `"v1"`)}
 		case "304+max-age=20":
@@ -157,7 +163,7 @@ func runC01(x *mc.X) {
 			return // C02's business
 		}
 		c := om.Calls[0]
-		if kind == "200" {
+		if strings.HasPrefix(kind, "200") {
 			if om.Tok == "" {
 				return
 			}
